@@ -46,7 +46,8 @@ static const char* type_name_of(int t) {
 // what the simulator throws for type t (asked from the simulator itself, so that the two cannot drift apart)
 static std::string what_of(int t) {
     static std::map<int, std::string> cache; auto it = cache.find(t); if (it != cache.end()) return it->second;
-    std::string w; try { sim::throw_fault_for_test(t); } catch (std::exception& e) { w = e.what(); } cache[t] = w; return w;
+    std::string w; sim::Quiet quiet;   // (not part of the run: the probing must not advance the logical step counter of whichever plan asks first in a process)
+    try { sim::throw_fault_for_test(t); } catch (std::exception& e) { w = e.what(); } cache[t] = w; return w;
 }
 
 static void arm(const Plan& pl) {
